@@ -112,11 +112,29 @@ struct Entry {
 	host: String,
 	hkind: String,
 	port: EPort,
+	/// the entry is handed to the layer as a `std::net::SocketAddr` (parsed from `text`) instead of as a string
+	via_sockaddr: bool,
+}
+
+/// What the layer is built from: strings and socket addresses mixed.
+enum AnyEntry {
+	Text(String),
+	Sock(std::net::SocketAddr),
+}
+
+impl TryFrom<AnyEntry> for Authority {
+	type Error = jsonrpsee_server::middleware::http::AuthorityError;
+	fn try_from(e: AnyEntry) -> Result<Self, Self::Error> {
+		match e {
+			AnyEntry::Text(s) => Authority::try_from(s),
+			AnyEntry::Sock(a) => Authority::try_from(a),
+		}
+	}
 }
 
 impl Entry {
 	fn to_json(&self) -> Value {
-		json!({"text": self.text, "host": self.host, "hkind": self.hkind, "port": self.port.to_json()})
+		json!({"text": self.text, "host": self.host, "hkind": self.hkind, "port": self.port.to_json(), "via_sockaddr": self.via_sockaddr})
 	}
 	fn from_json(v: &Value) -> Entry {
 		Entry {
@@ -124,6 +142,7 @@ impl Entry {
 			host: v["host"].as_str().unwrap_or("").to_string(),
 			hkind: v["hkind"].as_str().unwrap_or("?").to_string(),
 			port: EPort::from_json(&v["port"]),
+			via_sockaddr: v["via_sockaddr"].as_bool().unwrap_or(false),
 		}
 	}
 }
@@ -739,7 +758,11 @@ fn call_layer(rt: &tokio::runtime::Runtime, layer: &HostFilterLayer, request: Ht
 }
 
 fn build_layer(entries: &[Entry]) -> Result<HostFilterLayer, String> {
-	HostFilterLayer::new(entries.iter().map(|e| e.text.as_str())).map_err(|e| e.to_string())
+	HostFilterLayer::new(entries.iter().map(|e| match (e.via_sockaddr, e.text.parse::<std::net::SocketAddr>()) {
+		(true, Ok(a)) => AnyEntry::Sock(a),
+		_ => AnyEntry::Text(e.text.clone()),
+	}))
+	.map_err(|e| e.to_string())
 }
 
 // ---------------------------------------------------------------------------------------------------------------
@@ -812,7 +835,9 @@ fn gen_entry(r: &mut Rng) -> Entry {
 		EPort::Any => ":*".to_string(),
 		EPort::Fixed(p) | EPort::SchemeDefault(p) => format!(":{p}"),
 	};
-	Entry { text: format!("{prefix}{host}{port_text}{suffix}"), host, hkind: hkind.to_string(), port }
+	// an IP literal with a fixed port and no scheme can equally be given as a socket address
+	let via_sockaddr = prefix.is_empty() && suffix.is_empty() && matches!(port, EPort::Fixed(_)) && matches!(hkind, "ipv4" | "ipv6") && r.chance(2, 3);
+	Entry { text: format!("{prefix}{host}{port_text}{suffix}"), host, hkind: hkind.to_string(), port, via_sockaddr }
 }
 
 #[derive(Clone, Copy, PartialEq)]
@@ -1167,7 +1192,7 @@ fn run_one(rt: &tokio::runtime::Runtime, layer: &HostFilterLayer, entries: &[Ent
 		if let Some(ports) = sig.strip_prefix("refused-must-match/") {
 			// differential attribution: the same request against the same host pattern with port `*`
 			let e = &entries[0];
-			let probe = Entry { text: format!("{}:*", e.host), host: e.host.clone(), hkind: e.hkind.clone(), port: EPort::Any };
+			let probe = Entry { text: format!("{}:*", e.host), host: e.host.clone(), hkind: e.hkind.clone(), port: EPort::Any, via_sockaddr: false };
 			let culprit = match (build_layer(std::slice::from_ref(&probe)), build_request(req)) {
 				(Ok(l), Built::Ok(r2)) => {
 					if call_layer(rt, &l, r2).inner_calls > 0 {
@@ -1203,7 +1228,7 @@ fn new_rt() -> tokio::runtime::Runtime {
 
 /// Fixed corner cases (run once per shard 0): the documented behaviours and the classic attack shapes.
 fn corner_cases(rt: &tokio::runtime::Runtime, sh: &mut Shard) {
-	let e = |text: &str, host: &str, hkind: &str, port: EPort| Entry { text: text.into(), host: host.into(), hkind: hkind.into(), port };
+	let e = |text: &str, host: &str, hkind: &str, port: EPort| Entry { text: text.into(), host: host.into(), hkind: hkind.into(), port, via_sockaddr: false };
 	let lists: Vec<Vec<Entry>> = vec![
 		vec![],
 		vec![e("parity.io", "parity.io", "literal", EPort::Unspecified)],
@@ -1358,7 +1383,7 @@ fn main() {
 					Some((h, p)) if p.parse::<u32>().is_ok() => (h.to_string(), EPort::Fixed(p.parse().unwrap())),
 					_ => (t.to_string(), EPort::Unspecified),
 				};
-				Entry { text: t.to_string(), host, hkind: "probe".into(), port }
+				Entry { text: t.to_string(), host, hkind: "probe".into(), port, via_sockaddr: false }
 			})
 			.collect();
 		let mut hosts = Vec::new();
@@ -1381,7 +1406,7 @@ fn main() {
 		// a second, unrelated case so that the evidence floor does not mask the replay verdict
 		replay_case(
 			&witness(
-				&[Entry { text: "parity.io".into(), host: "parity.io".into(), hkind: "literal".into(), port: EPort::Unspecified }],
+				&[Entry { text: "parity.io".into(), host: "parity.io".into(), hkind: "literal".into(), port: EPort::Unspecified, via_sockaddr: false }],
 				&ReqSpec { hosts: vec![b"parity.io".to_vec()], uri: "/".into() },
 				None,
 			),
